@@ -112,8 +112,21 @@ def _fc_cat(c):
     return fc, cat
 
 
+def _directed_number_tests():
+    """public number tests on large observed catalogs (conventions of rt/oracles_eval.number_test_public): the +-epsilon
+    around the count must survive float rounding up to 1e5 events"""
+    g = {'nx': 2, 'ny': 2, 'dh': 1.0, 'x0': 0.0, 'y0': 0.0, 'mags': [4.0, 5.0]}
+    fam = []
+    for ne in (3, 16385, 20000, 65537):
+        events = [[t % 4, t % 2] for t in range(ne)]
+        rates = [[float(ne) / 8] * 2 for _ in range(4)]
+        fam.append(('number_test_public', dict(grid=g, rates=rates, events=events, scale=None)))
+    return fam
+
+
 @contract
 class PoissonNumberTest:
+    directed = staticmethod(_directed_number_tests)
     qualname = 'csep.core.poisson_evaluations.number_test'
     case = 'abstract forecast/catalog records'
     properties = ('C07',)
